@@ -111,7 +111,7 @@ def readPath : List String → Val N → R (Val N)
 
 /-- ASCII lower-casing (the generators keep LIKE operands to ASCII letters plus caseless
     characters, for which it coincides with `strings.ToLower`). -/
-def lowerStr (s : String) : String := s.map Char.toLower
+def lowerStr (s : String) : String := String.ofList (s.toList.map Char.toLower)
 
 /-- `f` holds for some suffix of `s` (what `.*` followed by the rest of the pattern means) -/
 def anySuffix (f : List Char → Bool) : List Char → Bool
